@@ -112,7 +112,7 @@ def run(ctx):
     cases = []
     for i in range(90 if ctx.quick else 900):
         kind = rng.choice(["dna", "rna", "protein"])
-        n = rng.choice([2, 3, 5, 8, 15, 40, 99])
+        n = rng.choice([2, 3, 5, 8, 15, 40, 99, rng.randint(53, 98)])
         base = gen.family(rng, kind, max(1, n // 2), rng.choice([12, 40, 120, 300]), sub=rng.choice([0.1, 0.3]), indel=rng.choice([0.05, 0.1]), spice=rng.random() < 0.5)
         seqs = [s for _, s in base]
         recs = list(seqs)
@@ -181,6 +181,26 @@ def run(ctx):
         t = rng.choice([3, 4, 5]) if kind == "protein" else rng.choice([0, 1, 2, 5])
         t = gen.fit_type(t, kind, recs)
         c = Case(recs, t, threads=rng.choice([1, 4, 16]), api=rng.choice(["file", "arr"]), fmt="fasta")
+        if len(recs) > 52 and i % 2 == 0:
+            # more than 50 records; some copies of repeated sequences standing late in the file are WRITTEN with stray gap characters (a leading '-',
+            # a '-' inside): they are still the same sequences
+            cnt = {}
+            for _, q in recs:
+                cnt[q] = cnt.get(q, 0) + 1
+            txt, marked = [], 0
+            for k, (nm, q) in enumerate(recs):
+                w = q
+                if k >= 50 and cnt[q] >= 2 and len(q) >= 2 and rng.random() < 0.6:
+                    for _ in range(rng.randint(1, 3)):
+                        at = 0 if rng.random() < 0.5 else rng.randint(1, len(w) - 1)
+                        w = w[:at] + "-" + w[at:]
+                    marked += 1
+                txt.append(">%s\n%s\n" % (nm, w))
+            if marked:
+                c.api = "file"
+                c.intext = "".join(txt)
+                c.tag = "%d late copies written with stray gap characters" % marked
+                ctx.count("late_copies_with_stray_gaps")
         cases.append(c)
     sysrun.run_cases(kvh, cases)
     # very long duplicates (beyond the 10000-residue clamp of the length term of the distance) with short fragments one edit away from a locus of
